@@ -199,13 +199,28 @@ PROPS["C16"] = {
     "technique": "symbolic execution of rustc MIR into SMT-LIB2 bit-vectors (own translator), decided by z3 (5.1, fallback 4.8.12), cross-checked on cvc5",
 }
 
+PROPS["C09"] = {
+    "engine": "kani", "module": "c09", "feature": "c09", "jobs": 8,
+    "functions": ["RearCodedListBuilder::{new,push,build,len}", "RearCodedList::{len,get_in_place,lend,lend_from,iter,iter_from,index_of,contains}",
+                  "Lend::{new,new_from,next,len,size_hint}", "index_of_sorted", "strcpy", "strcmp", "strcmp_rust", "longest_common_prefix",
+                  "encode_int", "encode_int_len", "decode_int (through hook H3)"],
+    "bounds": "lists of zero or one string of concrete length <= 3 with symbolic ASCII bytes (1..=127), block size k in 1..=3; index_of/contains with a "
+              "symbolic probe of length <= 3 for k = 1 only (for k >= 2 the in-block scan makes Vec::resize symbolic-sized); kernels: every value <= isize::MAX for the variable-byte code (encode_int_len does not terminate above 2^63), byte strings of length <= 3 for strcmp/strcmp_rust/longest_common_prefix",
+    "outside": "lists of two or more strings (block-internal decoding, binary search over several blocks, multi-block iteration): every push after "
+               "the first copies a suffix whose length depends on symbolic bytes into growing Vecs -- 18 GB in 3 min for two one-byte strings; "
+               "multi-byte UTF-8; get() (String::from_utf8 validation)",
+    "assumptions": ["strings are built with from_utf8_unchecked over ASCII bytes"],
+    "level_text": "Bounded model checking of the single-string list (which contains the boundary cases the property singles out: the empty list "
+                  "and a start position equal to len when len is a multiple of k) and of the three kernels every longer list is built from.",
+    "level_note": "PARTIAL: multi-string lists are not claimed. Trusted: Kani/CBMC/CaDiCaL.",
+}
+
 # Properties not (yet) claimed, with the reason. Entries for properties that
 # gain a check are ignored by tools/gen_manifest.py.
 NOT_APPLICABLE = {
     "C02": "check not built yet in this revision (planned, partial: DESIGN.md §2 C02)",
     "C07": "VBuilder::try_build_func needs threads (std::thread::scope, crossbeam, rayon), per-key xxh3 hashing and loops proportional to n: no bounded symbolic encoding of 'terminates and maps every key' is within reach of Kani/CBMC or a hand translator; the decidable part (edges in range, same at build and query time) is C16",
     "C08": "no-false-negatives is C07 for a hashed value (same builder, same obstacle); 'false-positive frequency close to 2^-b' is a statistical statement about a hash, not an assertion an SMT solver can decide",
-    "C09": "check not built yet in this revision (planned, partial: DESIGN.md §2 C09)",
     "C11": "check not built yet in this revision (planned, partial: DESIGN.md §2 C11)",
     "C15": "mmap/load_full are file I/O and an FFI mmap call; epserde's in-memory (de)serialisation hashes type names and walks a generic reader/writer stack of a dependency: heap- and loop-heavy, beyond a bounded encoding; measured obstacles in DESIGN.md §2 C15",
     "C17": "same entry points and obstacles as C07 (threads, per-key hashing, file-backed stores); build_loop is a private generic method whose retry logic cannot be driven without rewriting the builder",
